@@ -123,3 +123,34 @@ impl TokIter {
         }
     }
 }
+
+// ---------------------------------------------------------------- containers with a history
+thread_local! {
+    /// when set, every list built from tokens lives in a container that was filled to capacity, cleared and
+    /// refilled: tinyvec keeps the old elements behind the active part (what a caller gets who reuses a
+    /// DataVec across epochs with clear() / set_len())
+    pub static DIRTY: std::cell::Cell<bool> = std::cell::Cell::new(false);
+}
+
+pub fn with_dirty<T>(f: impl FnOnce() -> T) -> T {
+    DIRTY.with(|d| d.set(true));
+    let r = f();
+    DIRTY.with(|d| d.set(false));
+    r
+}
+
+pub fn stale_tail<T: Clone + Default, const N: usize>(v: rtcm_rs::util::DataVec<T, N>, stale: impl Fn(usize, &T) -> T) -> rtcm_rs::util::DataVec<T, N> {
+    if !DIRTY.with(|d| d.get()) || N == 0 {
+        return v;
+    }
+    let proto: Vec<T> = if v.len() == 0 { vec![T::default()] } else { v.iter().cloned().collect() };
+    let mut w = rtcm_rs::util::DataVec::<T, N>::new();
+    for q in 0..N {
+        w.push(stale(q, &proto[q % proto.len()]));
+    }
+    if N % 2 == 0 { w.clear(); } else { w.set_len(0); }
+    for e in v.iter() {
+        w.push(e.clone());
+    }
+    w
+}
